@@ -121,7 +121,7 @@ def gen_cases(r, n):
             # the overflow window of has_remaining: a length word c with read_pos_ + c >= 2^64 (a bound check written as
             # read_pos_ + c <= data_length_ would wrap and pass), after a first read that moves the position
             W = 1 << 64
-            k = r.choice([0, 1, 3, 4, 8, 11, 16])
+            k = r.choice([0, 1, 3, 4, 8, 12, 16])
             payload = rbytes(r, r.choice([0, 1, 4, 8, 12]))
             pos = k + 8
             sz = r.choice([1, 1, 2, 4, 8])
